@@ -111,6 +111,7 @@ fn main() {
                 match args[2].as_str() {
                     "C01" => checks::c01::show(&tape),
                     "C12" => checks::c12::show(&phase, &tape),
+                    "C13" => checks::c13::show(&tape),
                     _ => {}
                 }
                 if std::env::var("VERIF_SHOW").map(|v| v == "only").unwrap_or(false) {
